@@ -1,3 +1,15 @@
 -- GENERATED: axiom audit of the property theorems of C24
 import SquidModel.Properties.C24
+#print axioms SquidModel.C24.oneShot_obs
+#print axioms SquidModel.C24.decode_exact
+#print axioms SquidModel.C24.decode_exact_all_consumed
+#print axioms SquidModel.C24.truncated_needs_more
+#print axioms SquidModel.C24.segmentation_independence_partial
+#print axioms SquidModel.C24.reject_in_every_segmentation
+#print axioms SquidModel.C24.reject_0x
+#print axioms SquidModel.C24.reject_nonhex
+#print axioms SquidModel.C24.reject_size_overflow
+#print axioms SquidModel.C24.accepted_size_fits
+#print axioms SquidModel.C24.reject_missing_crlf
+#print axioms SquidModel.C24.reject_bad_ext_name
 #print axioms SquidModel.C24.segmentation_independence_counterexample
